@@ -1,13 +1,14 @@
 -------------------------- MODULE MTestSolverGenMC --------------------------
 EXTENDS MTestSolverGen
 Unset == -16
-QuickConfs == {[times |-> <<0, 64, 192>>, maxsub |-> 3, dyn |-> FALSE, mindt |-> Unset],
-               [times |-> <<16, 80>>, maxsub |-> 2, dyn |-> FALSE, mindt |-> Unset],
-               [times |-> <<0, 64, 96>>, maxsub |-> 3, dyn |-> TRUE, mindt |-> Unset],
-               [times |-> <<0, 64>>, maxsub |-> 4, dyn |-> TRUE, mindt |-> 4]}
+QuickConfs == {[times |-> <<0, 64, 192>>, maxsub |-> 3, dyn |-> FALSE, mindt |-> Unset, maxdt |-> 0],
+               [times |-> <<16, 80>>, maxsub |-> 2, dyn |-> FALSE, mindt |-> Unset, maxdt |-> 0],
+               [times |-> <<0, 64, 96>>, maxsub |-> 3, dyn |-> TRUE, mindt |-> Unset, maxdt |-> 0],
+               [times |-> <<0, 64>>, maxsub |-> 4, dyn |-> TRUE, mindt |-> 4, maxdt |-> 0],
+               [times |-> <<0, 64, 128>>, maxsub |-> 3, dyn |-> TRUE, mindt |-> 2, maxdt |-> 12]}
 ThoroughConfs == QuickConfs \cup
-              {[times |-> <<0, 64, 192, 256>>, maxsub |-> 4, dyn |-> FALSE, mindt |-> Unset],
-               [times |-> <<0, 128, 192>>, maxsub |-> 4, dyn |-> TRUE, mindt |-> Unset],
-               [times |-> <<0, 128>>, maxsub |-> 5, dyn |-> TRUE, mindt |-> 8]}
+              {[times |-> <<0, 64, 192, 256>>, maxsub |-> 4, dyn |-> FALSE, mindt |-> Unset, maxdt |-> 0],
+               [times |-> <<0, 128, 192>>, maxsub |-> 4, dyn |-> TRUE, mindt |-> Unset, maxdt |-> 0],
+               [times |-> <<0, 128>>, maxsub |-> 5, dyn |-> TRUE, mindt |-> 8, maxdt |-> 24]}
 GenFactors == {<<1, 4>>, <<3, 8>>, <<1, 8>>}
 =============================================================================
